@@ -24,6 +24,11 @@ import common  # noqa: E402
 from common import InfraError, Report, Driver, TRUSTED_BASE  # noqa: E402
 
 
+# quick-tier budget multipliers (measured on the unchanged tree: every quick check stays near one minute)
+QUICK_SCALE = {'C01': 1, 'C02': 8, 'C03': 2, 'C04': 4, 'C05': 4, 'C06': 10, 'C07': 10, 'C08': 3, 'C09': 2, 'C10': 2,
+               'C11': 2, 'C12': 8, 'C13': 4, 'C14': 3, 'C15': 3, 'C16': 1, 'C17': 8, 'C18': 6, 'C19': 8, 'C20': 1.5}
+
+
 class Ctx:
     def __init__(self, rep, tier, seed, driver, changed):
         self.rep = rep
@@ -32,14 +37,19 @@ class Ctx:
         self.driver = driver          # None when the model could not be built
         self.changed = changed        # fingerprints of mirrored python functions that differ from the reference
         self.thorough = tier == 'thorough'
+        self.scale = float(os.environ.get('VERIF_QUICK_SCALE', QUICK_SCALE.get(rep.prop_id, 1)))
         self.corr_bad = []            # model/implementation disagreements
         self.replay = None
 
     def budget(self, quick, thorough):
-        n = thorough if self.thorough else quick
-        if not self.thorough and self.changed:
-            n = min(thorough, n * 3)
-        return n
+        if self.thorough:
+            return thorough
+        # the quick tier is scaled per property so that every quick check explores for roughly a minute
+        # (the base figures are the ones the generators were calibrated with; VERIF_QUICK_SCALE overrides)
+        n = int(quick * self.scale)
+        if self.changed:
+            n = n * 3
+        return max(1, min(thorough, n))
 
     def compare(self, items):
         """items: list of (line, impl_rendered, description). Runs the driver; records disagreements."""
@@ -89,7 +99,7 @@ def main():
     broken = []        # names of theorems / ties that no longer check
     driver = None
     try:
-        br = common.regenerate_and_build()
+        br = common.regenerate_and_build(targets=('driver',))
         rep.extra['gen_changed'] = br.gen_changed
         rep.extra['gen_diff'] = getattr(br, 'gen_diff', '')
         if not br.gen_ok:
@@ -166,6 +176,10 @@ def main():
             else:
                 signal.alarm(0)
             c = cov.stop()
+            if os.environ.get('VERIF_COV_DUMP'):      # development aid: union of the lines reached by all checks (tools/cov_union.py)
+                os.makedirs(os.environ['VERIF_COV_DUMP'], exist_ok=True)
+                json.dump(sorted([os.path.relpath(f, cov.root), l] for f, l in cov.hits),
+                          open(os.path.join(os.environ['VERIF_COV_DUMP'], f'{pid}.json'), 'w'))
             if c:
                 tot = [sum(v[0] for v in c.values()), sum(v[1] for v in c.values())]
                 rep.extra['impl_line_coverage'] = {'total': tot, 'by_module': {k: v for k, v in sorted(c.items()) if v[0] > 0}}
